@@ -10,6 +10,7 @@ package sparseindex
 // skip-index readers' MayBeInFragment.  Oracle: brute-force row evaluation (comparison with
 // null is false); every fragment holding a matching row must be inside the returned ranges.
 // Soundness only: over-reading is never reported.
+// Skip indexes over several columns / several indexes at once (CreateSKFileReaders, Scan chain): c20_multi_test.go.
 
 import (
 	"fmt"
